@@ -669,6 +669,63 @@ func sweepItems(hi int, rng *rand.Rand) []item {
 	return items
 }
 
+// caseShiftText: a text whose BYTE length is one of the lengths the text helpers accept (so it passes a length guard) but
+// which contains runes whose upper/lower-case mapping, normalisation or re-encoding has a different byte length (Kelvin
+// sign 3->1, dotted capital I 2->1, long s 2->1, ohm / angstrom 3->2, capital sharp s 3->2, A with stroke 2->3), a
+// four-octet rune, NUL (texts stay valid UTF-8: events log texts as code points) - a guard checked on one form of the text and an index
+// applied to another is only seen with such input.
+var shiftRunes = []rune{0x212A, 0x0130, 0x017F, 0x2126, 0x212B, 0x1E9E, 0x023A, 0x023E, 0x1F600, 0, 0xFF21, 0x0660}
+
+func caseShiftText(h *helper, rng *rand.Rand) []byte {
+	target := []int{6, 19, 20, 5, 7, 12, 21}[rng.Intn(7)]
+	var b []byte
+	nd := []int{0, 3, 5, 11}[rng.Intn(4)] // leading plain digits (MCC / MNC / AMF id positions stay valid)
+	for i := 0; i < nd && len(b) < target; i++ {
+		b = append(b, byte('0'+rng.Intn(10)))
+	}
+	for len(b) < target {
+		switch k := rng.Intn(5); {
+		case k <= 2:
+			rb := []byte(string(shiftRunes[rng.Intn(len(shiftRunes))]))
+			if len(b)+len(rb) <= target {
+				b = append(b, rb...)
+			} else {
+				b = append(b, byte('0'+rng.Intn(10)))
+			}
+		default:
+			b = append(b, "0123456789abcdefABCDEF"[rng.Intn(22)])
+		}
+	}
+	if len(b) > h.maxLen {
+		b = b[:h.maxLen]
+	}
+	return b
+}
+
+// caseShiftFamily: deterministic companion of caseShiftText - for every accepted byte length, every number of leading plain
+// digits and every rune of shiftRunes: the digits, then that rune repeated as often as fits, padded with digits at the end.
+func caseShiftFamily(h *helper) [][]byte {
+	var out [][]byte
+	for _, target := range []int{6, 19, 20} {
+		for nd := 0; nd < target && nd <= 12; nd++ {
+			for _, r := range shiftRunes {
+				rb := []byte(string(r))
+				b := []byte("20893012345678"[:nd])
+				for len(b)+len(rb) <= target {
+					b = append(b, rb...)
+				}
+				for len(b) < target {
+					b = append(b, '7')
+				}
+				if len(b) <= h.maxLen {
+					out = append(out, b)
+				}
+			}
+		}
+	}
+	return out
+}
+
 func randomInput(h *helper, rng *rand.Rand) []byte {
 	if h.text {
 		n := rng.Intn(25)
@@ -676,6 +733,9 @@ func randomInput(h *helper, rng *rand.Rand) []byte {
 		if rng.Intn(3) == 0 { // near-valid: digits and hex only, plausible lengths
 			pool = []rune("0123456789abcdefABCDEF")
 			n = []int{0, 2, 4, 5, 6, 7, 8, 18, 19, 20, 21}[rng.Intn(11)]
+		}
+		if rng.Intn(4) == 0 {
+			return caseShiftText(h, rng)
 		}
 		r := make([]rune, n)
 		for i := range r {
@@ -823,6 +883,12 @@ func main() {
 				continue
 			}
 			rng := rand.New(rand.NewSource(ev.Seed()*1000 + int64(hi)))
+			if helpers[hi].text {
+				for _, in := range caseShiftFamily(&helpers[hi]) {
+					hh, in2 := hi, in
+					items = append(items, func() { callEvent(hh, in2) })
+				}
+			}
 			for k := 0; k < n; k++ {
 				in := randomInput(&helpers[hi], rng)
 				hh := hi
